@@ -533,6 +533,10 @@ struct MonC07 : Monitor {
         else if (tos == 0 && op == W_QUERY) {
             std::vector<const TxRec *> qr;
             for (auto &tx : d.txs) if (tx.channel == 0 && tx.data.size() >= 34 && tx.data[OFF_OP] == W_QUERYRESP) qr.push_back(&tx);
+            if (!qr.empty() && qr[0]->data.size() >= 34) { // whatever else went wrong: a QueryResp that says "N descriptors, nothing more to come" must carry N
+                const Bytes &g = qr[0]->data; uint16_t c0 = be16(&g[32]); size_t dn = c0 & 0x3FFF, carried = (g.size() - 34) / 20;
+                if (!(c0 & 0x8000) && dn > carried) { w.violate("C07", "observations-dropped", fmt("QueryResp declares %zu descriptors without the more flag but carries %zu: %zu observation(s) are announced as delivered and are not", dn, carried, dn - carried)); return; }
+            }
             if (d.internal_fault) { for (auto &o : s.must) s.maybe.insert(o); s.must.clear(); for (auto &k : s.keys) s.maybe_keys.insert(k); s.keys.clear(); s.strict.clear(); s.room = 0; if (qr.empty()) return; }
             if (qr.empty()) { w.violate("C07", "query-unanswered", "Query got no QueryResp"); return; }
             const Bytes &f = qr[0]->data;
@@ -687,8 +691,10 @@ struct MonC08 : Monitor {
 struct MonC10 : Monitor {
     std::map<int, std::set<Obs>> expect;
     std::map<int, bool> relaxed;
+    ArbTracker arb;
     const char *prop() const override { return "C10"; }
     void on_delivery(World &w, Delivery &d) override {
+        struct Upd { ArbTracker &a; Delivery &d; ~Upd() { a.update(d); } } upd{arb, d};
         if (!d.ran || d.buf[OFF_TOS] != 0) return;
         const Node &n = *w.nodes[d.node];
         uint8_t op = d.buf[OFF_OP];
@@ -709,7 +715,8 @@ struct MonC10 : Monitor {
             for (auto &tx : d.txs) if (tx.channel == 0 && !tx.refused && tx.data.size() >= 32 && (tx.data[OFF_OP] == W_PROBE || tx.data[OFF_OP] == W_TRAIN)) sent++;
             bool kinds_ok = true;
             for (size_t i = 0; i < declared && i < fits; i++) if (d.buf[34 + 14 * i] > 1) kinds_ok = false;
-            if (sent > 0 && declared >= 1 && declared <= fits && kinds_ok && sent < declared && !(node_getfail(w, d.node) & (G_MTU | G_MAC)))
+            bool by_mapper = arb.m.count(d.node) && arb.m[d.node].certainly_active(mac_at(d.buf + OFF_RSRC));
+            if ((sent > 0 || by_mapper) && declared >= 1 && declared <= fits && kinds_ok && sent < declared && !(node_getfail(w, d.node) & (G_MTU | G_MAC)))
                 w.violate("C10", "peer-probe-not-reported", fmt("an Emit with %zu descriptors was executed but only %zu frame(s) were put on the wire: the rest can never be observed by the peer", declared, sent));
         }
         else if (op == W_QUERY) {
